@@ -60,8 +60,17 @@ def write_pgen(prefix, samples, variants, data):
 
     prefix = str(prefix)  # may hold dots of its own (cohort.chr1): the extensions are appended, never substituted
     key = [list(samples), [list(map(str, v[:3])) for v in variants]]
+    # the sample file as other tools leave it, a function of the contents: the minimal '#IID' form, a comment line before the
+    # header line, or the #FID IID SEX form (PLINK2's .psam specification admits all three)
+    style = C.plumb(key, "psam-style", 4)
+    if style == 2:
+        psam = "# cohort release 3\n#IID\n" + "".join(s + "\n" for s in samples)
+    elif style == 3:
+        psam = "#FID\tIID\tSEX\n" + "".join(f"fam{i % 2}\t{s}\t{i % 3}\n" for i, s in enumerate(samples))
+    else:
+        psam = "#IID\n" + "".join(s + "\n" for s in samples)
     with open(prefix + ".psam", "w") as f:
-        f.write(C.text_ending(key, "psam", "#IID\n" + "".join(s + "\n" for s in samples)))
+        f.write(C.text_ending(key, "psam", psam))
     txt = "".join(f"##contig=<ID={c}>\n" for c in sorted({v[1] for v in variants}, key=lambda c: (len(c), c)))
     txt += "#CHROM\tPOS\tID\tREF\tALT\n"
     for vid, chrom, pos, alleles in variants:
